@@ -85,6 +85,8 @@ REF_PROGRAMS = {
     # an activated flow that failed while matching (it is not restarted) is activated a second time later on
     "activated-flow-failed-while-matching-then-activated-again": "flow g\n  global $pat\n  match E1(p=regex($pat))\n  send Pong()\n\nflow fixer\n  global $pat\n  match E2()\n  $pat = \"a\"\n\nflow main\n  global $pat\n  $pat = \"(\"\n  activate g\n  start fixer\n  match E3()\n  activate g\n  send Again()\n  match Never()\n",
     "activated-flow-finished-then-activated-again": "flow g\n  match E1()\n  send Pong()\n  match E2()\n\nflow a1\n  activate g\n  match E2()\n\nflow main\n  start a1\n  match E3()\n  activate g\n  send Again()\n  match Never()\n",
+    # two activators of one flow, both deactivate it (one after the other); idle time afterwards
+    "two-activators-deactivate": "flow helper\n  match E1()\n  send Tock()\n\nflow b\n  activate helper\n  match E3()\n  deactivate helper\n  match Never()\n\nflow main\n  activate helper\n  start b\n  match E2()\n  deactivate helper\n  match Never()\n",
     "await-then-finish": "flow c\n  match E1()\n  match E2()\n\nflow d\n  match E1()\n\nflow main\n  start c\n  await d\n  send Echo()\n  match E3()\n  send Echo2()\n  match Never()\n",
 }
 
